@@ -317,7 +317,7 @@ func c15Sequences(r *verdict.Run, nseq int) {
 				} else if rng.Intn(4) == 0 {
 					args = c15Extra(rng)
 				} else {
-					args = gens[fam](rng, m, universe[fam])
+					args = c15Stabilize(gens[fam](rng, m, universe[fam]))
 				}
 				name := strings.ToLower(args[0])
 				if name == "command" && len(args) > 1 && strings.EqualFold(args[1], "LIST") {
@@ -380,6 +380,33 @@ func c15Sequences(r *verdict.Run, nseq int) {
 			e3.close()
 		}
 	})
+}
+
+// c15Stabilize moves absolute deadlines that fall within 10 s of the present 1000 s into the future: the two paired
+// executions run a few milliseconds apart, and a key that expires in between makes them diverge for reasons that
+// have nothing to do with the protocol (expiry itself is C07's subject).
+func c15Stabilize(args []string) []string {
+	if len(args) < 3 {
+		return args
+	}
+	unit := int64(0)
+	switch strings.ToUpper(args[0]) {
+	case "EXPIREAT":
+		unit = 1
+	case "PEXPIREAT":
+		unit = 1000
+	}
+	if unit == 0 {
+		return args
+	}
+	ts, err := strconv.ParseInt(args[2], 10, 64)
+	now := time.Now().Unix() * unit
+	if err == nil && ts > now-10*unit && ts < now+10*unit {
+		out := append([]string{}, args...)
+		out[2] = strconv.FormatInt(ts+1000*unit, 10)
+		return out
+	}
+	return args
 }
 
 // c15HelloMachine: random walks over HELLO variants on three connections with protocol probes.
